@@ -278,6 +278,67 @@ def h_chain_jumptimes(ctx, ndates):
     ctx.prove("C15.chain.jumptimes.one_sampled_increment_per_jump", proc.served == sum(counts) and len(jt) == sum(counts), info={"counts": counts})
 
 
+# ---- copula chain at fixed product dates
+
+
+def _copula_fixed_dates_path(counts, times):
+    """real copula chain (HEM x HEM, Clayton, 5x5 grid, inversion sampler), fixed-date simulator, jump counts per interval given"""
+    import rpylib.model.levymodel.mixed.hem as HEM
+    import rpylib.model.levycopulamodel as LCM
+    import rpylib.process.markovchain.markovchainlevycopula as MCLC
+    import rpylib.grid.spatial as GS
+    from rpylib.distribution.levycopula import ClaytonCopula
+    from rpylib.distribution.sampling import SamplingMethod
+
+    ms = [HEM.HEMModel(HEM.HEMParameters(sigma=0.1, p=0.4, eta1=20.0, eta2=25.0, intensity=3.0)) for _ in range(2)]
+    lcm = LCM.LevyCopulaModel(models=ms, copula=ClaytonCopula(theta=0.7, eta=0.3))
+    grid = GS.CTMCUniformGrid.create_from_fixed_nb_of_points(h=0.05, nb_of_points=5, dimension=2)
+    proc = MCLC.MarkovChainLevyCopula(lcm, grid, SamplingMethod.INVERSION)
+    prod = StubProduct(np.array(times, dtype=float), PayoffDates.DETERMINISTIC)
+    proc.initialisation(prod)
+    st = np.random.get_state()
+    np.random.seed(5)
+    try:
+        proc.pre_computation(1, prod)
+        sim = proc._path_simulation
+        sim._poisson_rv = deque([np.array(counts, dtype=int)])
+        return proc.simulate_one_path()
+    finally:
+        np.random.set_state(st)
+
+
+def replay_copula_fixed_dates(sc):
+    counts = [int(c) for c in sc["counts"]]
+    times = [float(k) for k in range(len(counts) + 1)]
+    try:
+        path = _copula_fixed_dates_path(counts, times)
+    except Exception as e:
+        return True, f"copula chain (HEM x HEM, Clayton), fixed-date simulator, product dates {times}, jump counts {counts}: simulate_one_path raises {type(e).__name__}: {e}"
+    v = np.asarray(path.value(), dtype=float)
+    bad = v.shape != (2, len(times))
+    return bad, f"product dates {times}, jump counts {counts}: path of shape {v.shape}"
+
+
+def h_copula_fixed_dates(ctx, ndates):
+    """copula chain at fixed product dates: a path with one column per date is produced whatever the (solver-chosen) jump counts are"""
+    counts = [ctx.int(f"count{k}", 0, 2).__index__() for k in range(ndates)]
+    times = [float(k) for k in range(ndates + 1)]
+    rp = (replay_copula_fixed_dates, lambda m: {"counts": counts})
+    V.set_context(None)  # everything but the jump counts is concrete here: the real chain runs on plain numbers (no stream model, no shims)
+    try:
+        try:
+            path = _copula_fixed_dates_path(counts, times)
+        finally:
+            V.set_context(ctx)
+    except (TypeError, ValueError) as e:
+        ctx.prove("C15.copula.fixed.a_path_is_produced_for_every_number_of_product_dates", False, info={"dates": ndates, "counts": counts, "raised": f"{type(e).__name__}: {str(e)[:80]}"},
+                  replay=rp, regions={"several_product_dates": ndates > 1})
+        return
+    v = np.asarray(path.value(), dtype=float)
+    ctx.prove("C15.copula.fixed.a_path_is_produced_for_every_number_of_product_dates", v.shape == (2, ndates + 1) and bool(np.all(v[:, 0] == 0.0)), info={"dates": ndates, "counts": counts},
+              replay=rp, regions={"several_product_dates": ndates > 1})
+
+
 # ---- epsilon refinement
 
 
@@ -492,6 +553,8 @@ def harnesses(tier):
     hs = [Harness("concrete", concrete_validation, concrete=True)]
     for nd in ((1, 2) if q else (1, 2, 3)):
         hs.append(Harness(f"fixed.{nd}", h_fixed, {"ndates": nd}, max_paths=4000, batch=20))
+    for nd in (1, 2):
+        hs.append(Harness(f"copula.fixed.{nd}", h_copula_fixed_dates, {"ndates": nd}, max_paths=200, batch=3))
     for nd in (1, 2) if q else (1, 2, 3):
         hs.append(Harness(f"chain.jumptimes.{nd}", h_chain_jumptimes, {"ndates": nd}, max_paths=2000, batch=20))
     for nd, pm in (((1, 2), (2, 2)) if q else ((1, 2), (2, 2), (1, 4), (3, 1))):
@@ -513,7 +576,8 @@ EXPECT = ["C15.maxstep.every_component_of_an_inserted_point_repeats_its_own_pred
           "C15.jumptimes.jump_component_is_running_sum", "C15.jumptimes.diffusion_component_is_running_sum_of_scaled_normals", "C15.maxstep.every_step_at_most_epsilon",
           "C15.maxstep.values_kept_and_inserted_points_repeat_predecessor", "C15.maxstep.returned_path_respects_the_cap",
           "C15.path_value_is_jump_plus_diffusion_each_time_it_is_read", "C15.reading_the_path_value_leaves_its_components_unchanged",
-          "C15.chain.jumptimes.jump_component_is_running_sum_over_the_whole_path", "C15.chain.jumptimes.one_sampled_increment_per_jump"]
+          "C15.chain.jumptimes.jump_component_is_running_sum_over_the_whole_path", "C15.chain.jumptimes.one_sampled_increment_per_jump",
+          "C15.copula.fixed.a_path_is_produced_for_every_number_of_product_dates"]
 
 
 def main(tier):
